@@ -315,6 +315,9 @@ class Field(PGPObject):
 
 
 class Header(Field):
+    # partial body lengths exist for packets, but not for subpackets
+    _partial_ok = True
+
     @staticmethod
     def encode_length(length, nhf=True, llen=1):
         def _new_length(nl):
@@ -351,7 +354,7 @@ class Header(Field):
                 if 192 > fo:
                     return (self.bytes_to_int(a[offset:offset + 1]), 1, False)
 
-                elif 224 > fo:  # >= 192 is implied
+                elif 224 > fo or (255 > fo and not self._partial_ok):  # >= 192 is implied
                     dlen = self.bytes_to_int(b[offset:offset + 2])
                     return (((dlen - (192 << 8)) & 0xFF00) + ((dlen & 0xFF) + 192), 2, False)
 
